@@ -422,19 +422,35 @@ impl Decls {
             return refuse(file, line, format!("fn `{}`: generic parameters", what));
         }
         let self_ty = if owner.is_empty() { None } else { Some(owner) };
+        // the Lean name `Owner.name` must not collide with what the structure declaration generates
+        if let Some(sd) = self.structs.get(owner) {
+            if name == "mk" || name == "rec" || name == "casesOn" || sd.fields.iter().any(|(f, _)| *f == name) {
+                return refuse(file, line, format!("fn `{}`: its Lean name would collide with the constructor / a projection of struct `{}`", what, owner));
+            }
+        }
         let mut params = vec![];
+        let mut mut_self = false;
         for a in &sig.inputs {
             match a {
                 syn::FnArg::Receiver(r) => {
                     if r.mutability.is_some() {
-                        return refuse(file, line_of(a), format!("fn `{}`: `&mut self` / `mut self`", what));
+                        // `&mut self` on a whitelisted struct: state-passing translation (the body
+                        // may assign `self.field`; the result is `(value, self')`).  `mut self`
+                        // (by value) and every other receiver type are refused.
+                        if r.reference.is_none() || !self.structs.contains_key(owner) {
+                            return refuse(file, line_of(a), format!("fn `{}`: `&mut self` / `mut self` on a type that is not a whitelisted struct", what));
+                        }
+                        mut_self = true;
                     }
                     let t = if self.enums.contains_key(owner) {
                         Ty::Enum(owner.to_string())
                     } else if self.structs.contains_key(owner) {
                         Ty::Struct(owner.to_string())
                     } else {
-                        return refuse(file, line_of(a), format!("fn `{}`: receiver of a type that is not a whitelisted enum/struct", what));
+                        // a receiver of a type that is not translated is ABSTRACTED: it gets no
+                        // parameter, so any use of `self` in the body (other than a declared
+                        // opaque call) is an unknown identifier and refuses the target
+                        continue;
                     };
                     params.push(("self".to_string(), t));
                 }
@@ -458,7 +474,10 @@ impl Decls {
             syn::ReturnType::Type(_, t) => self.ty(file, t, self_ty)?,
         };
         let lean = if owner.is_empty() { lean_ident(&name) } else { format!("{}.{}", owner, lean_ident(&name)) };
-        self.fns.insert((owner.to_string(), name), FnSig { lean, params, ret });
+        if mut_self && matches!(ret, Ty::Res(..)) {
+            return refuse(file, line, format!("fn `{}`: `&mut self` together with a `Result` return type", what));
+        }
+        self.fns.insert((owner.to_string(), name), FnSig { lean, params, ret, mut_self });
         Ok(())
     }
 }
@@ -486,6 +505,19 @@ pub struct FnCx<'a> {
     pub(crate) inline_stack: Vec<(String, String)>,
     /// header lines of the helpers that were inlined
     pub inlined: BTreeMap<String, String>,
+    /// locals bound to a formatted message (`let msg = format!(..)`): usable only as the
+    /// payload of an error constructor, where they are abstracted like literal messages
+    pub(crate) msg_vars: BTreeSet<String>,
+    /// the target takes `&mut self` (state-passing translation)
+    pub mut_self: bool,
+    /// are we in tail-flow position of the target's body (the only place where an assignment
+    /// to `self.field` can be translated without a join)?
+    pub(crate) tail_ok: bool,
+    /// opaque sub-expressions of the target (token text -> (parameter name, type)): calls of a
+    /// trait method on a generic field, abstracted to an extra parameter
+    pub opaque: Vec<(String, String, Ty)>,
+    /// lean names of the successive versions of `self` (bound by `assign_self`)
+    pub self_versions: BTreeSet<String>,
 }
 
 impl<'a> FnCx<'a> {
@@ -504,6 +536,11 @@ impl<'a> FnCx<'a> {
             errs: BTreeSet::new(),
             inline_stack: vec![],
             inlined: BTreeMap::new(),
+            msg_vars: BTreeSet::new(),
+            mut_self: sig.mut_self,
+            tail_ok: sig.mut_self,
+            opaque: vec![],
+            self_versions: BTreeSet::new(),
         };
         cx.used.insert("p".into());
         cx.used.insert("ε".into());
